@@ -519,7 +519,12 @@ impl Identity {
                 signature,
                 parent,
             } => {
-                debug_assert!(!self.revisions.contains_key(&entry));
+                if self.revisions.contains_key(&entry) {
+                    // A revision is identified by the entry that creates it: an operation
+                    // creates at most one revision, and never replaces an existing one
+                    // (which may already have been voted on, or adopted).
+                    return Err(ApplyError::NotAuthorized);
+                }
 
                 let doc = repo.blob(blob)?;
                 let doc = Doc::from_blob(&doc)?;
